@@ -670,6 +670,20 @@ def _dt(dtype, default=None):
 
 @reg("numpy.array")
 def np_array(x, dtype=None, copy=True, **kw):
+    if dtype is B.get("object") or dtype == "object":
+        # object array: nested lists give the shape, the leaves are kept as they are
+        shape = []
+        y = x
+        while isinstance(y, (list, tuple)):
+            shape.append(len(y))
+            y = y[0] if y else None
+
+        def leaf(idx, x=x):
+            v = x
+            for i in idx:
+                v = v[i]
+            return v
+        return SArr(tuple(shape), leaf, "object")
     a = A.from_nested(x)
     if isinstance(x, SArr):
         a = a.copy()
@@ -1331,8 +1345,75 @@ REG["scipy.fft.next_fast_len"] = _next_fast_len
 # ---------------------------------------------------------------------------
 # attribute / method protocol for arrays and numbers (stub hook used by Interp.getattr)
 
+class OverlapResult:
+    """result of dask `map_overlap(..., dtype=object)` reduced to ONE generic block (an arbitrary chunk of an arbitrary
+    chunking): .compute().ravel() is the list holding what the function returned for that block"""
+    _pyvc_native = True
+
+    def __init__(self, items, info):
+        self.items, self.info = items, info
+
+    def compute(self, **kw):
+        return self
+
+    def ravel(self):
+        return list(self.items)
+
+
+def _map_overlap(interp, a, func, *args, depth=0, boundary=None, trim=True, dtype=None, meta=None, **kwargs):
+    """dask.array.map_overlap, trusted contract (observed with the installed dask, see DESIGN.md): the function is
+    called once per chunk with the chunk extended by `depth` voxels on each side (the boundary mode supplies the voxels
+    outside the array) and with block_info[None]['array-location'] = the chunk's (start, stop) per axis in the
+    UN-extended array.  The generic chunk: 0 <= start < stop <= shape, any location."""
+    if trim:
+        raise Unsupported("map_overlap(trim=True)")
+    nd = a.ndim
+    dep = list(depth) if isinstance(depth, (list, tuple)) else [depth] * nd
+    name = V.fresh_name("chunk")
+    starts = [Sym(z3.Int(f"{name}_start{i}")) for i in range(nd)]
+    stops = [Sym(z3.Int(f"{name}_stop{i}")) for i in range(nd)]
+    for i in range(nd):
+        interp.path.assume(V.sand(V.compare(">=", starts[i], 0), V.compare("<", starts[i], stops[i]),
+                                  V.compare("<=", stops[i], a.shape[i])))
+    bshape = tuple(V.arith("+", V.arith("-", stops[i], starts[i]), V.arith("*", 2, dep[i])) for i in range(nd))
+    af = a.snapshot()
+    f = z3.Function(name + "_halo", *([z3.IntSort()] * nd), z3.RealSort())
+
+    def elem(idx):
+        # inside the array: the array's voxel; outside: whatever the boundary mode supplies
+        g = [V.arith("-", V.arith("+", starts[i], idx[i]), dep[i]) for i in range(nd)]
+        inside = V.sand(*[V.sand(V.compare(">=", g[i], 0), V.compare("<", g[i], a.shape[i])) for i in range(nd)])
+        halo = Sym(f(*[V.lift(x) for x in g]))
+        if inside is True:
+            return af(tuple(g))
+        return V.ite(inside, af(tuple(g)), halo) if inside is not False else halo
+    block = SArr(bshape, elem, a.dtype)
+    info = {None: {"array-location": [(starts[i], stops[i]) for i in range(nd)], "shape": tuple(a.shape)},
+            0: {"array-location": [(V.arith("+", starts[i], 0), V.arith("+", stops[i], V.arith("*", 2, dep[i]))) for i in range(nd)]}}
+    GHOST.setdefault("overlap", []).append({"starts": starts, "stops": stops, "depth": dep, "block": block})
+    out = interp.call(func, [block] + list(args), dict(kwargs, block_info=info))
+    items = []
+
+    def flat(x):
+        if isinstance(x, SArr):
+            if any(not isinstance(s_, int) for s_ in x.shape):
+                raise Unsupported("map_overlap function returned a symbolic-shape array")
+            import itertools
+            for idx in itertools.product(*[range(s_) for s_ in x.shape]):
+                items.append(x.at(idx))
+        elif isinstance(x, (list, tuple)):
+            for y in x:
+                flat(y)
+        else:
+            items.append(x)
+    flat(out)
+    return OverlapResult(items, info)
+
+
 def _arr_method(arr, name):
     a = arr
+    if name == "map_overlap":
+        return wants_interp(lambda interp, func, *args, **kw: _map_overlap(interp, a, func, *args, **kw))
     if name == "shape":
         return tuple(a.shape)
     if name == "ndim":
@@ -1472,6 +1553,8 @@ def _getattr_hook(interp, obj, name):
     if isinstance(obj, SArr):
         return _arr_method(obj, name)
     if isinstance(obj, MaskedSel):
+        if name in ("shape", "ndim", "copy", "astype", "T", "dtype") and obj.mask.ndim == 1 and isinstance(obj.arr, SArr):
+            return _arr_method(A.materialize(obj), name)
         if name == "rechunk":
             return lambda *a, **k: obj
         if name == "mean":
